@@ -70,7 +70,7 @@ def gen_case(rng):
     for _ in range(rng.choice([0, 1, 1, 2, 2, 3])):
         ri = rng.randrange(nres)
         rid, local = res[ri]
-        kind = rng.choice(['P', 'PO', 'PO2', 'H', 'H', 'bridge', 'cbp', 'unknown', 'named_anchor', 'oxy', 'PO'])
+        kind = rng.choice(['P', 'PO', 'PO2', 'H', 'H', 'bridge', 'cbp', 'unknown', 'named_anchor', 'oxy', 'PO', 'ring', 'ring'])
 
         def add(name, el, to):
             k = next(key)
@@ -85,6 +85,17 @@ def gen_case(rng):
             if kind == 'PO2':
                 add('X3', 'O', p)
             wanted.update({'P': ['PHOS'], 'PO': ['PHOSO', 'PHOS'], 'PO2': ['PHOSO2', 'PHOSO', 'PHOS']}[kind])
+        elif kind == 'ring' and ('CA', ri) not in used_anchor:
+            # two P-O branches on one anchor; one of them also closes a ring back onto the anchor: the phosphate pattern
+            # fits the open branch as it is, and the ring branch only if the extra bond is ignored
+            used_anchor.add(('CA', ri))
+            first = rng.random() < 0.5
+            for closes in ([False, True] if first else [True, False]) if rng.random() < 0.8 else [True]:
+                p = add('X1', 'P', local['CA'])
+                o = add('X2', 'O', p)
+                if closes:
+                    bonds.append([o, local['CA']])
+            wanted.update(['PHOSO', 'PHOS'])
         elif kind == 'H' and ('N', ri) not in used_anchor:
             used_anchor.add(('N', ri))
             add('H', 'H', local['N'])
